@@ -11,23 +11,40 @@ trap 'rm -rf "$D"' EXIT
 F="$D/g/src/ttlcache/ttlcache.go"
 gen() { rm -rf "$D/g"; ./bin/mcgen -noconc -add ttlcache=/verif/checks/c15seq/access.go.txt -out "$D/g" github.com/dapr/kit/ttlcache; }
 runit() { echo "== $1"; VERIF_ROOT="$D/root" go test -tags unit -overlay "$D/g/overlay.json" -vet=off ./checks/c15seq -run TestCheck -v -args -tier quick 2>&1 | grep -v "^ok\|^FAIL\|^---\|^PASS\|^=== RUN\|^exit status" | cut -c1-330 | awk '/^FINDING/{k=$0; getline m; n[k]++; if(n[k]==1) first[k]=m; next} {print} END{for(k in n) print k " x" n[k] "\n" first[k]}'; }
+# ONLY="d f" ./mutants.sh runs a subset
+want() { [ -z "$ONLY" ] || case " $ONLY " in *" $1 "*) true;; *) false;; esac; }
 changed() { cmp -s "$F" "$D/orig.go" && { echo "mutation did not apply"; exit 2; } || true; }
 
 gen; cp "$F" "$D/orig.go"
 runit "baseline (unchanged code)"
 
+if want d; then
 gen; sed -i 's/if !ok || !val.exp.After(c.clock.Now()) {/if !ok || val.exp.Before(c.clock.Now()) {/' "$F"; changed
 runit "d: Get uses exp.Before(now) instead of !exp.After(now) (value served exactly at expiry)"
+fi
 
+if want e; then
 gen; sed -i 's/if c.maxTTL > 0 \&\& ttl > c.maxTTL {/if c.maxTTL > 0 \&\& ttl < c.maxTTL {/' "$F"; changed
 runit "e: MaxTTL cap applied only when ttl < maxTTL (short TTLs stretched, long ones never capped)"
+fi
 
+if want e2; then
 gen; perl -0pi -e 's/if c.maxTTL > 0 && ttl > c.maxTTL \{\n\t\tttl = c.maxTTL\n\t\}/if c.maxTTL > 0 \&\& ttl < c.maxTTL \&\& false {\n\t\tttl = c.maxTTL\n\t}/' "$F"; changed
 runit "e2: MaxTTL never applied"
+fi
 
+if want f; then
 gen; sed -i 's/if v.exp.Before(now) {/if v.exp.After(now) {/' "$F"; changed
 runit "f: Cleanup collects entries with exp.After(now) (live entries removed)"
+fi
 
+if want h; then
 gen; sed -i 's/^\t\tclose(c.stopCh)$/\t\t_ = c.stopCh/' "$F"; changed
 echo "(the next one waits for the 10 s guard four times)"
 runit "h: Stop does not close stopCh (the cleaner never exits)"
+fi
+
+if want h2; then
+gen; sed -i 's/^\t\tclose(c.stopCh)$/\t\tif c.m.Len() == 0 {\n\t\t\tclose(c.stopCh)\n\t\t}/' "$F"; changed
+runit "h2: Stop closes stopCh only when the cache is empty"
+fi
